@@ -151,17 +151,20 @@ P = {
   declined="equality of models / error positions in general",
   technique="cache-key vs. dynamic-context rule, instances enumerated from lang.py and the Arpeggio source"),
 "C20": dict(
-  decided={"C20.a": "every Match construction in the grammar visitor passes ignore_case derived from metamodel.ignore_case"},
+  decided={"C20.a": "every Match construction in the grammar visitor passes ignore_case derived from metamodel.ignore_case",
+           "C20.b": "the ignore_case option of the metamodel is forwarded to the model parser under its own name"},
   declined="that case mutation never changes acceptance; value case preservation (Arpeggio terminals)",
   technique="must-pass keyword-argument rule with alias expansion over all Match constructions"),
 "C21": dict(
-  decided={"C21.a": "keyword classification regex is the identifier class; keyword branch only on a full match; emitted regex ends in \\b; non-keyword path builds the same StrMatch"},
+  decided={"C21.a": "keyword classification regex is the identifier class; keyword branch only on a full match; emitted regex ends in \\b; non-keyword path builds the same StrMatch",
+           "C21.b": "the autokwd option of the metamodel is forwarded to the model parser under its own name"},
   declined="model equality with/without autokwd for all inputs",
   technique="regex category algebra + guard analysis on the RegExMatch construction"),
 "C22": dict(
   decided={
     "C22.a": "rule modifiers are installed on an expression that honours them (same rule as C01.c)",
     "C22.b": "the Comment rule is looked up after all rules are visited and handed to the parser; ws escape table in visit_rule_params",
+    "C22.c": "the skipws and ws options of the metamodel are forwarded to the model parser under their own names",
   },
   declined="invariance of the model under inserted whitespace/comments (Arpeggio)",
   technique="class-capability check against the Arpeggio source + table extraction"),
